@@ -244,16 +244,19 @@ def extract_branch_results_with_internals(net, branch_results, table_name,
             for i, (res_name, entry) in enumerate(res_mean_hydraulics):
                 res_table[res_name].values[pt] = res[i + 3][connected_ind] / num_internals
         if len(res_branch) > 0:
-            use_numba = get_net_option(net, "use_numba")
-            _, sections, connected_sum = _sum_by_group(use_numba, idx_pit, np.ones_like(idx_pit),
-                                comp_connected.astype(np.int32))
-            connected_ind = connected_sum > 0.99
-            indices_last_section = (np.cumsum(sections) - 1).astype(int)[connected_ind]
-            # hint: idx_pit[placement_table] should result in the indices as ordered in the table
-            pt = placement_table[connected_ind]
+            # results that relate to the outlet of the whole branch: the pit holds the internal
+            # sections of each table row consecutively (in table order), the internal lookup gives
+            # first and last section of every row relative to the start of the table
+            int_lookup = net["_lookups"]["internal_branches"][table_name]
+            first_section, last_section = int_lookup[:, 0], int_lookup[:, 1]
+            connected_rows = comp_connected[last_section]
+            # with flow against the declared direction the fluid leaves through the first section
+            switched = branch_pit[f:t, FROM_NODE_T_SWITCHED].astype(np.bool_)
+            outlet_section = np.where(switched[first_section], first_section, last_section)
 
             for i, (res_name, entry) in enumerate(res_branch):
-                res_table[res_name].values[pt] = branch_results[entry][indices_last_section]
+                res_table[res_name].values[connected_rows] = \
+                    branch_results[entry][f:t][outlet_section[connected_rows]]
 
 
 def extract_branch_results_without_internals(net, branch_results, required_results_hydraulic,
